@@ -35,7 +35,7 @@ S0 == [q |-> "idle", req |-> <<>>, hasReq |-> FALSE, blkOpen |-> FALSE, pblk |->
        grant |-> 0, sent |-> 0, srvGrant |-> 0, rstByUs |-> FALSE, rstByPeer |-> FALSE, refused |-> FALSE,
        closedAt |-> -1, errSeen |-> FALSE]
 
-M0(tr) == [cfg |-> tr.cfg, s |-> << >>, hb |-> 0, maxSid |-> 0,
+M0(tr) == [cfg |-> tr.cfg, s |-> << >>, hb |-> 0, rhb |-> 0, maxSid |-> 0,
            maxFrameSrv |-> 16384, srvIW |-> 65535, maxConcAdv |-> -1,
            peerIW |-> 65535, iwSent |-> 65535, peerMFS |-> 16384, mfsQ |-> <<>>,
            grantC |-> 65535, sentC |-> 0, srvGrantC |-> 65535, peerSentC |-> 0,
@@ -202,7 +202,7 @@ OnSend(mm0, f0) ==
 
 -----------------------------------------------------------------------------
 (* recv: the peer read frame f from the server.                              *)
-OnRecv(mm, f) ==
+OnRecv0(mm, f) ==
   LET r == St(mm, f.sid) IN
   IF f.ty = T_DATA THEN
      LET r1 == [r EXCEPT !.grant = @ - f.len, !.rb = @ + f.dlen, !.res = @ + (IF f.es THEN 1 ELSE 0)]
@@ -277,6 +277,18 @@ OnRecv(mm, f) ==
      IF mm.pings # <<>> /\ Head(mm.pings) = f.inc THEN [mm EXCEPT !.pings = Tail(@)]
      ELSE Flag(mm, "C08:ping-acknowledgement-without-matching-ping")
   ELSE mm
+
+
+\* RFC 7540 section 4.3: a header block is one contiguous run of frames - nothing else, on any stream, comes between its
+\* HEADERS and its last CONTINUATION (the write queue is shared by the stream loop, the read loop and the timers)
+OnRecv(mm, f) ==
+  LET inside == mm.rhb # 0 /\ ~(f.ty = T_CONT /\ f.sid = mm.rhb)
+      orphan == mm.rhb = 0 /\ f.ty = T_CONT
+      m1 == OnRecv0(mm, f)
+      m2 == FlagIf(m1, inside, "C01:frame-inside-a-response-header-block (type " \o ToString(f.ty) \o " on stream " \o ToString(f.sid)
+                                 \o " inside the block of stream " \o ToString(mm.rhb) \o ")")
+      m3 == FlagIf(m2, orphan, "C01:continuation-without-an-open-response-header-block")
+  IN [m3 EXCEPT !.rhb = IF f.ty \in {T_HEADERS, T_CONT} THEN (IF f.eh THEN 0 ELSE f.sid) ELSE @]
 
 -----------------------------------------------------------------------------
 OnHStart(mm, e) ==
@@ -461,6 +473,9 @@ Step(mm, e) ==
     [] e.k = "ret"   -> OnRet(mm, e)
     [] e.k = "runaway" -> Flag(Flag(mm, "C06:runaway-output"), "C01:runaway-output")
     [] e.k = "peerproto" -> Flag(mm, "C14:zero-increment (frame rejected by the peer's framer, code=" \o ToString(e.code) \o ")")
+    \* the peer's framer (x/net) refused what the server sent as a connection error: frame order (another frame inside
+    \* a header block), a frame over the maximum size, ...: the response cannot be received at all
+    [] e.k = "rderr" -> IF e.conn THEN Flag(mm, "C01:server-output-is-not-a-legal-frame-sequence (" \o e.msg \o ")") ELSE mm
     [] e.k = "qtimeout" -> Flag(mm, "X:quiescence-timeout")
     [] e.k = "driverpanic" -> Flag(mm, "X:driver-panic")
     [] OTHER -> mm
